@@ -113,13 +113,27 @@ def run(world, tier, info, only=None):
         cl = [q for q in w.fns if q.startswith(p + "::{closure") and any((c["c"] or "").endswith("RamBlock::bits") for c in w.fns[q]["calls"])]
         ck.ob("R1", "area/memory-is-ram-bits-times-bit-area", okm and rb and bool(cl), site(s, st[3]),
               "memory = sum over module.ram_blocks of bits() * sram_model().bit_area")
-    lp = [(h, t, some) for h, t, some, none, item in flow.loops_over(g) if flow.access_path(g, t["args"][0]) == (("arg", 1), ("cells",))]
+    ADP = re.compile(r"Iterator::(rev|skip|take|step_by|filter|skip_while|take_while|enumerate|peekable|chain|zip)$")
+    lp = [(h, t, some) for h, t, some, none, item in flow.loops_over(g) if flow.access_path(g, t["args"][0], extra_transparent=ADP) == (("arg", 1), ("cells",))]
     if len(lp) != 1:
-        ck.ob("R1", "area/loop-over-cells", False, site(s), "expected one loop over module.cells, found %d" % len(lp))
+        # the iterator form: module.cells.iter().map(|c| library.info(c.kind).area).sum()
+        its = [(bi, t) for bi, t in g.calls(r"Iterator::(sum|fold)$") if any(flow.access_path(g, a, extra_transparent=re.compile(r"Iterator::(map|copied|cloned)$|::iter$"))[1][-1:] == ("cells",) for a in t["args"])]
+        ad = []
+        for bi, t in its:
+            flow.access_path(g, t["args"][0], extra_transparent=re.compile(r"Iterator::(map|copied|cloned)$|::iter$"), adapters=ad)
+        cl = [q for q in w.fns if q.startswith(p + "::{closure") and any((c["c"] or "").endswith("CellLibrary::info") for c in w.fns[q]["calls"])]
+        skipping = [a for a in ad if re.search(r"skip|take|filter|step_by", a)]
+        if its and cl and not skipping:
+            ck.ob("R1", "area/every-cell", True, site(s), "module.cells is summed through an iterator chain without a skipping adapter")
+        elif skipping or (lp and len(lp) > 1):
+            ck.ob("R1", "area/loop-over-cells", False, site(s), "the walk over module.cells skips elements (%s) or is repeated (%d loops)" % (skipping, len(lp)))
+        else:
+            ck.ob("R1", "area/loop-over-cells", None, site(s), "no loop and no recognised iterator sum over module.cells: cannot tell how the cells are accumulated")
     else:
         h, t, some = lp[0]
         ad = []
-        flow.access_path(g, t["args"][0], adapters=ad)
+        flow.access_path(g, t["args"][0], extra_transparent=ADP, adapters=ad)
+        ad = [a for a in ad if re.search(r"skip|take|filter|step_by|chain|zip", a)]
         ck.ob("R1", "area/every-cell", not ad, site(s, t["l"]), "the loop visits every cell (adapters %s)" % ad)
         acc = [l for l in range(len(g.locals)) if g.ty(l) == "f64" and any(d[0] == "s" and d[1] in g.reach_from(some, avoid=[h]) for d in g.defs.get(l, []))
                and any(d[0] == "s" and d[1] not in g.reach_from(some, avoid=[h]) for d in g.defs.get(l, []))]
